@@ -554,7 +554,7 @@ Section ReduceStructs.
       destruct res' as [|c r]; inversion H; subst; [|exact T'].
       cbn [typed] in T'. subst so.
       destruct (typed_chain _ _ _ (Ident fresh dummy_struct) T ltac:(discriminate)) as (_ & _ & _ & I & _).
-      rewrite I. cbn [typed]. repeat split; reflexivity.
+      cbn [typed]. split; [reflexivity|]. split; [reflexivity|]. split; [exact I|symmetry; exact I].
     Qed.
   End Rules.
 
@@ -621,7 +621,7 @@ Section ReduceStructs.
       pose proof (mapM_typed _ (IH order) _ _ _ _ Hops T) as T1.
       pose proof (algebraic_typed _ (IH order) _ _ _ _ _ _ Halg T1) as T2.
       destruct ops' as [|a [|b r]]; inversion H; subst e'.
-      + cbn [typed] in T2. repeat split; [reflexivity|]. exact T2.
+      + cbn [typed] in T2. repeat split. exact T2.
       + cbn [typed] in T2. destruct T2 as (Wx & Px & Ox & Ix). repeat split; auto.
       + destruct (typed_chain _ _ _ (Ident fresh dummy_struct) T2 ltac:(discriminate)) as (C & A & Pk & I & O).
         rewrite wfo_comp, C, A. unfold prims_ok. rewrite pk_comp, Pk.
@@ -676,13 +676,55 @@ Section ReduceStructs.
     unfold is_square in *. now rewrite I, O.
   Qed.
 
-  (* each registered binary rule on an adjacent pair, any registry order, the scan *)
+  (* `typed` spelled out with chain_ok / last / hd *)
+  Lemma typed_explicit new si so d : typed new si so ->
+    (new = [] /\ si = so) \/
+    (new <> [] /\ chain_ok new = true /\ allwf new = true /\ allpk new = true /\
+     in_struct (last new d) = si /\ out_struct (hd d new) = so).
+  Proof.
+    intros T. destruct new as [|a r]; [left; split; [reflexivity|exact T]|].
+    right. split; [discriminate|]. apply typed_chain; [exact T|discriminate].
+  Qed.
+
+  (* each registered binary rule fired on an adjacent, chain-compatible pair *)
   Theorem rule_structs : forall rr ru l r new, keeps rr ->
     guard_ok (guard_of ru) l r = true -> apply_rule rr ru l r = Ok (Some new) ->
     wfo l = true -> wfo r = true -> prims_ok l -> prims_ok r -> in_struct l = out_struct r ->
-    typed new (in_struct r) (out_struct l).
+    (new = [] /\ in_struct r = out_struct l) \/
+    (new <> [] /\ chain_ok new = true /\ allwf new = true /\ allpk new = true /\
+     in_struct (last new l) = in_struct r /\ out_struct (hd l new) = out_struct l).
   Proof.
-    intros rr ru l r new Hrr Hg Ha Wl Wr Pl Pr E. eapply rule_typed; eauto.
-    cbn [typed]. repeat split; auto.
+    intros rr ru l r new Hrr Hg Ha Wl Wr Pl Pr E. apply typed_explicit.
+    eapply rule_typed; eauto. cbn [typed]. repeat split; auto.
+  Qed.
+
+  (* the scan and the whole n-ary rule on a chain-compatible list of well-formed factors *)
+  Theorem scan_structs : forall rr fuel order ops index res d, keeps rr ->
+    ops <> [] -> chain_ok ops = true -> allwf ops = true -> allpk ops = true ->
+    scan rr fuel order ops index = Ok res ->
+    (res = [] /\ in_struct (last ops d) = out_struct (hd d ops)) \/
+    (res <> [] /\ chain_ok res = true /\ allwf res = true /\ allpk res = true /\
+     in_struct (last res d) = in_struct (last ops d) /\ out_struct (hd d res) = out_struct (hd d ops)).
+  Proof.
+    intros rr fuel order ops index res d Hrr Hne C A P H. apply typed_explicit.
+    eapply scan_typed; eauto. now apply chain_typed.
+  Qed.
+  Theorem algebraic_structs : forall rr fuel order ops res d, keeps rr ->
+    ops <> [] -> chain_ok ops = true -> allwf ops = true -> allpk ops = true ->
+    algebraic_reduction rr fuel order ops = Ok res ->
+    res <> [] /\ chain_ok res = true /\ allwf res = true /\ allpk res = true /\
+    in_struct (last res d) = in_struct (last ops d) /\ out_struct (hd d res) = out_struct (hd d ops).
+  Proof.
+    intros rr fuel order ops res d Hrr Hne C A P H.
+    assert (Hres : res <> []).
+    { unfold Algebra.algebraic_reduction in H. destruct ops as [|a [|b rest]]; [congruence| |].
+      - inversion H; discriminate.
+      - apply result_bind_ok in H as (res' & _ & H). destruct res'; inversion H; discriminate. }
+    split; [exact Hres|]. apply typed_chain; [|exact Hres]. eapply algebraic_typed; eauto. now apply chain_typed.
   Qed.
 End ReduceStructs.
+Arguments prims_okb {K} e.
+Arguments prims_ok {K} e.
+Arguments allpk {K} l.
+Arguments typed {K} l si so.
+Arguments keeps {K} f.
